@@ -1,8 +1,14 @@
 """C01 - every backend implements one abstract file tree (operation contracts)."""
 from props import hist, histprop, c03
 
+def corpus_cases():
+    """every operation on every kind of target (within the domain the property specifies)"""
+    return hist.matrix_cases("c01", ["mem", "phys", "alt_mem", "alt_phys", "ovl_mm", "ovl_m", "ovl_pp", "ovl_sub", "alt_ovl",
+                                     "ovl_alt", "ovl_ovl"], c01_domain=True)
+
+
 P = histprop.HistProp(
-    "C01", hist.CONFIGS, typed=True, quick_cases=8, thorough_cases=120, nops=(10, 22), known=c03.known, use_spec=True,
+    "C01", hist.CONFIGS, typed=True, corpus_cases=corpus_cases, quick_cases=8, thorough_cases=120, nops=(10, 22), known=c03.known, use_spec=True,
     rule=("typed histories (calls of the right type for their target mostly valid, 25% on arbitrary universe paths; no root "
           "removal, no copy into the own subtree, no touching of paths with an open write handle, no reserved names) over "
           "3-4 names from {a, ab, a.b, b, .x, x., A, 'a b', U+00E9, U+65E5} at depth <= 3 with contents up to 70 kB, on "
